@@ -55,10 +55,47 @@ impl<'c, 's> Run<'c, 's> {
         }
     }
 
+    /// a byte value: fresh random, an edge value, or a value already present in this run
+    /// (addresses, EIDs, lengths, counts, header and PEC bytes of earlier frames) — real
+    /// systems are full of such coincidences and uniform draws almost never produce them
+    pub fn vbyte(&mut self) -> u8 {
+        match self.ch.choose(4) {
+            0 | 1 => self.ch.byte(),
+            2 => [0x00u8, 0xFF, 0x01, 0xFE, 0x7F, 0x80, 0x0F, 0x10][self.ch.choose(8) as usize],
+            _ => {
+                if self.dict.is_empty() {
+                    self.ch.byte()
+                } else {
+                    self.st.probe("value-reused-from-run-dictionary");
+                    let k = self.ch.choose(self.dict.len() as u32) as usize;
+                    self.dict[k]
+                }
+            }
+        }
+    }
+
+    pub fn dict_add(&mut self, v: u8) {
+        if self.dict.len() >= 96 {
+            let k = self.dict_pos % 96;
+            self.dict[k] = v;
+        } else {
+            self.dict.push(v);
+        }
+        self.dict_pos += 1;
+    }
+
     fn rand_fill(&mut self, len: usize) -> Vec<u8> {
         let mut v = vec![0u8; len];
         let s = self.ch.choose(1 << 16);
         fill(s, &mut v);
+        if len > 0 {
+            // plant up to two values from the run's dictionary
+            let k = self.ch.choose(3);
+            for _ in 0..k {
+                let pos = self.ch.choose(len as u32) as usize;
+                v[pos] = self.vbyte();
+            }
+        }
         v
     }
 
@@ -96,12 +133,23 @@ impl<'c, 's> Run<'c, 's> {
             0 => {
                 let ow = [4, 3, 1, 2];
                 a[0] = self.ch.weighted(&ow) as u8;
-                a[1] = match self.ch.choose(4) {
+                a[1] = match self.ch.choose(5) {
                     0 => 0x08 + ni as u8,
                     1 => 1 + self.ch.choose(254) as u8,
                     2 => [0x01u8, 0xFE, 0x80, 0x7F][self.ch.choose(4) as usize],
-                    _ => 0x08 + self.ch.choose(4) as u8,
+                    3 => 0x08 + self.ch.choose(4) as u8,
+                    _ => {
+                        // an EID equal to something else in the system (an address, a count, ...)
+                        let v = self.vbyte();
+                        if v == 0x00 || v == 0xFF {
+                            0x08
+                        } else {
+                            v
+                        }
+                    }
                 };
+                let e = a[1];
+                self.dict_add(e);
                 match a[0] {
                     1 => self.st.probe("force-used"),
                     3 => self.st.probe("set-discovered-flag-used"),
@@ -122,11 +170,11 @@ impl<'c, 's> Run<'c, 's> {
                     }
                 };
             }
-            6 | 9 => a[0] = self.ch.byte(),
+            6 | 9 => a[0] = self.vbyte(),
             7 => {
                 a[0] = self.ch.choose(3) as u8;
-                a[1] = self.ch.byte();
-                a[2] = self.ch.byte();
+                a[1] = self.vbyte();
+                a[2] = self.vbyte();
             }
             8 => {
                 let k = self.ch.choose(8) as usize;
@@ -136,13 +184,13 @@ impl<'c, 's> Run<'c, 's> {
                 }
             }
             14 => {
-                a[0] = self.ch.byte();
+                a[0] = self.vbyte();
                 a[1] = self.ch.choose(6) as u8;
             }
             15 => {
                 let v = self.rand_fill(16);
                 uuid.copy_from_slice(&v);
-                a[0] = self.ch.byte();
+                a[0] = self.vbyte();
             }
             _ => {}
         }
@@ -280,7 +328,7 @@ impl<'c, 's> Run<'c, 's> {
         let dest = self.nodes[pi].cfg.addr;
         let kind = self.ch.choose(6) as u8;
         let cc = self.ch.weighted(&[5, 1, 1, 1, 1, 1]) as u8;
-        let a = [self.ch.choose(2) as u8, self.ch.choose(4) as u8, self.ch.byte()];
+        let a = [self.ch.choose(2) as u8, self.ch.choose(4) as u8, self.vbyte()];
         let mut uuid = [0u8; 16];
         if kind == 2 {
             let v = self.rand_fill(16);
@@ -336,9 +384,10 @@ impl<'c, 's> Run<'c, 's> {
         let half = self.ch.choose(2);
         let v = match self.ch.choose(3) {
             0 => 0x20 + ni as u8,
-            1 => self.ch.byte(),
+            1 => self.vbyte(),
             _ => [0x00u8, 0xFF, 0x01, 0xFE][self.ch.choose(4) as usize],
         };
+        self.dict_add(v);
         if half == 0 {
             self.nodes[ni].ctx.get_request().set_eid(v);
             self.nodes[ni].m_eid_req = Some(v);
@@ -472,7 +521,7 @@ impl<'c, 's> Run<'c, 's> {
                 let cmd = match self.ch.choose(3) {
                     0 => 1 + self.ch.choose(6) as u8,
                     1 => self.ch.choose(0x16) as u8,
-                    _ => self.ch.byte(),
+                    _ => self.vbyte(),
                 };
                 let iid = self.ch.choose(32) as u8;
                 let mut body = vec![0x80 | iid, cmd];
@@ -486,7 +535,7 @@ impl<'c, 's> Run<'c, 's> {
                         0 => 0,
                         1 => 1,
                         2 => 3,
-                        _ => self.ch.byte(),
+                        _ => self.vbyte(),
                     };
                     if self.ch.choose(4) != 3 {
                         data[1] = 1 + self.ch.choose(254) as u8;
@@ -499,7 +548,7 @@ impl<'c, 's> Run<'c, 's> {
                         0 => 0,
                         1 => self.ch.choose(n_sets as u32) as u8,
                         2 => n_sets,
-                        _ => self.ch.byte(),
+                        _ => self.vbyte(),
                     };
                 }
                 body.extend_from_slice(&data);
@@ -510,12 +559,12 @@ impl<'c, 's> Run<'c, 's> {
                 let cmd = match self.ch.choose(3) {
                     0 => 1 + self.ch.choose(6) as u8,
                     1 => self.ch.choose(0x16) as u8,
-                    _ => self.ch.byte(),
+                    _ => self.vbyte(),
                 };
                 let cc = match self.ch.choose(4) {
                     0 | 1 => 0,
                     2 => 1 + self.ch.choose(5) as u8,
-                    _ => self.ch.byte(),
+                    _ => self.vbyte(),
                 };
                 let iid = self.ch.choose(32) as u8;
                 let mut body = vec![iid, cmd, cc];
@@ -559,7 +608,7 @@ impl<'c, 's> Run<'c, 's> {
             let k = 1 + self.ch.choose(2);
             for _ in 0..k {
                 match self.ch.choose(12) {
-                    0 => fg.b4 = self.ch.byte(),
+                    0 => fg.b4 = self.vbyte(),
                     1 => fg.b4 = 0x01 | (1 << (4 + self.ch.choose(4))),
                     2 => fg.b4 = self.ch.choose(16) as u8,
                     3 => fg.b8 |= 0x80,
@@ -568,7 +617,7 @@ impl<'c, 's> Run<'c, 's> {
                             fg.body[0] ^= 0x40 >> self.ch.choose(2);
                         }
                     }
-                    5 => fg.flags = self.ch.byte(),
+                    5 => fg.flags = self.vbyte(),
                     6 => fg.byte_count_delta = self.ch.choose(9) as i32 - 4,
                     7 => {
                         // long bodies up to the SMBus maximum and just below/above 256
@@ -580,8 +629,8 @@ impl<'c, 's> Run<'c, 's> {
                         }
                     }
                     8 => fg.good_pec = false,
-                    9 => fg.src_eid = self.ch.byte(),
-                    10 => fg.dest_eid = self.ch.byte(),
+                    9 => fg.src_eid = self.vbyte(),
+                    10 => fg.dest_eid = self.vbyte(),
                     _ => {
                         let l = fg.body.len();
                         if l > 0 {
@@ -903,6 +952,14 @@ impl<'c, 's> Run<'c, 's> {
         }
         let logical = self.logical();
         self.ev("send", &[ni as u64, logical as u64], &bytes);
+        if len >= 4 {
+            self.dict_add(bytes[2]);
+            self.dict_add(len as u8);
+            self.dict_add(bytes[len - 1]);
+            if len > 12 {
+                self.dict_add(bytes[len - 2]);
+            }
+        }
         Some(Frame {
             orig: bytes.clone(),
             bytes,
